@@ -141,6 +141,7 @@ func exec(p prog, c *hx.Case) error {
 				continue
 			}
 			cur.Stop()
+			w.SettleDead()
 			gen++
 			if p.NewID {
 				opID = fmt.Sprintf("op-%d", gen)
